@@ -129,8 +129,15 @@ var c16Kinds = []string{"type", "member", "function", "param", "local", "global"
 const c16Expected = 12
 
 func c16Template(kind, name string) (src, entry string) {
+	return c16TemplateN(map[string]string{kind: name})
+}
+
+// c16TemplateN: the template with several positions renamed at once (pairs of names that may collide after escaping).
+func c16TemplateN(names map[string]string) (src, entry string) {
 	n := map[string]string{"type": "Tq", "member": "mq", "function": "fq", "param": "pq", "local": "lq", "global": "oq", "const": "Cq", "entry": "eq", "private": "gq", "let": "tq"}
-	n[kind] = name
+	for k, v := range names {
+		n[k] = v
+	}
 	src = fmt.Sprintf(`struct %[1]s { %[2]s: u32, nq: u32, }
 const %[7]s: u32 = 3u;
 var<private> %[9]s: u32;
@@ -178,6 +185,42 @@ func C16(c *run.Ctx) int {
 		tc := tcs[i]
 		id := fmt.Sprintf("template %s=%q", tc.kind, tc.word)
 		return id, c16TemplateCase(c, id, tc.kind, tc.word)
+	})
+	// (1b) pairs: a Unicode name and the ASCII spellings of its escape, in two positions of one module
+	pairs := c16Pairs()
+	type pcase struct {
+		p  [2]string
+		kk [2]string
+	}
+	var pcs []pcase
+	for _, p := range pairs {
+		for _, kk := range c16PairKinds {
+			pcs = append(pcs, pcase{p, kk})
+		}
+	}
+	for i := len(pcs) - 1; i > 0; i-- {
+		j := r0.Intn(i + 1)
+		pcs[i], pcs[j] = pcs[j], pcs[i]
+	}
+	nPair := c.N(1200, len(pcs))
+	if nPair > len(pcs) {
+		nPair = len(pcs)
+	}
+	c.SetExtra("escape_pairs", len(pcs))
+	c.Each(nPair, func(i int) (string, run.Outcome) {
+		pc := pcs[i]
+		id := fmt.Sprintf("pair %s=%q %s=%q", pc.kk[0], pc.p[0], pc.kk[1], pc.p[1])
+		src, entry := c16TemplateN(map[string]string{pc.kk[0]: pc.p[0], pc.kk[1]: pc.p[1]})
+		o := c16TemplateSrc(c, id, pc.kk[0]+"+"+pc.kk[1], pc.p[0], src, entry)
+		if o.V == run.Held {
+			o.Sig = id
+			o.Trivial = false
+			if o.Cov == nil {
+				o.Cov = map[string]int{}
+			}
+			o.Cov["escape-pairs"]++
+		}
+		return id, o
 	})
 	// (2) adversarial injective renamings of generated programs
 	nP := c.N(240, 4000)
@@ -240,7 +283,7 @@ func C16(c *run.Ctx) int {
 		}
 		return id, o
 	})
-	return c.Finish(fmt.Sprintf("(1) every (word, position) pair drawn from a pool of %d adversarial names (reserved words, type names, intrinsics and library functions of HLSL, MSL/C++14 and GLSL taken from the interpreters' own specification tables; spellings of naga's helpers and temporaries; case / trailing-digit / underscore variants; Unicode identifiers and their escaped spellings) placed as type, member, function, parameter, local, let, module variable, constant and entry-point name in a template whose result is known; (2) injective adversarial renamings of generated programs; "+
+	return c.Finish(fmt.Sprintf("(1) every (word, position) pair drawn from a pool of %d adversarial names (reserved words, type names, intrinsics and library functions of HLSL, MSL/C++14 and GLSL taken from the interpreters' own specification tables; spellings of naga's helpers and temporaries; case / trailing-digit / underscore variants; Unicode identifiers and their escaped spellings) placed as type, member, function, parameter, local, let, module variable, constant and entry-point name in a template whose result is known; (1b) a Unicode identifier and the ASCII spellings of its escape (u03b8, d_u03b8, with trailing underscore / digit) in two positions of the same template; (2) injective adversarial renamings of generated programs; "+
 		"every output of the HLSL, MSL and GLSL backends is parsed and scope-resolved by the independent interpreter (reserved identifier, redeclaration in one scope, unresolved or mis-typed reference are static traps), the entry point is looked up through TranslationInfo.EntryPointNames, and the program is executed and compared with the expected result / the wref reference (a reference bound to the wrong entity changes the result); "+
 		"distinct = distinct (word, position) pairs resp. (backend, generator features); non-trivial = the name is not already a plain non-reserved identifier in all three targets (template part) / an output leaf changed and was compared (program part)", len(pool)),
 		[]string{"the reserved-word tables are the interpreters' own (written from the language specifications), not naga's", "a name the WGSL front end itself rejects is inconclusive here (front-end territory)"})
@@ -248,6 +291,56 @@ func C16(c *run.Ctx) int {
 
 func c16TemplateCase(c *run.Ctx, id, kind, word string) run.Outcome {
 	src, entry := c16Template(kind, word)
+	return c16TemplateSrc(c, id, kind, word, src, entry)
+}
+
+// c16Pairs: a Unicode identifier together with ASCII identifiers that spell what a backend's escaping may turn it into
+// (u03b8, d_u03b8, with and without trailing underscore / digit), in two positions of the same module: two distinct
+// WGSL entities must stay distinct in the output.
+func c16Pairs() [][2]string {
+	var out [][2]string
+	for _, u := range []string{"θ", "dθ", "Δ", "xΔ", "é", "aé", "変", "v変", "λ", "nλ", "ß", "aß", "θθ", "dθ1"} {
+		rs := []rune(u)
+		var esc []string
+		ascii := ""
+		for _, ch := range rs {
+			if ch < 128 {
+				ascii += string(ch)
+				continue
+			}
+			esc = append(esc, fmt.Sprintf("u%04x", ch))
+		}
+		forms := map[string]bool{}
+		e := strings.Join(esc, "_")
+		e2 := strings.Join(esc, "")
+		for _, body := range []string{e, e2, strings.ToUpper(e), "_" + e} {
+			for _, pre := range []string{ascii, ascii + "_"} {
+				if ascii == "" && pre == "_" {
+					continue
+				}
+				for _, suf := range []string{"", "_", "_1", "1"} {
+					w := pre + body + suf
+					if w != "" && w[0] != '_' && !(w[0] >= '0' && w[0] <= '9') {
+						forms[w] = true
+					}
+				}
+			}
+		}
+		var fl []string
+		for w := range forms {
+			fl = append(fl, w)
+		}
+		sort.Strings(fl)
+		for _, w := range fl {
+			out = append(out, [2]string{u, w})
+		}
+	}
+	return out
+}
+
+var c16PairKinds = [][2]string{{"local", "let"}, {"let", "local"}, {"function", "private"}, {"private", "function"}, {"type", "const"}, {"param", "local"}, {"global", "function"}, {"const", "private"}}
+
+func c16TemplateSrc(c *run.Ctx, id, kind, word, src, entry string) run.Outcome {
 	mod, stage, err := lowerSrc(src)
 	if err != nil {
 		return run.Outcome{V: run.Inconclusive, Reason: "front end rejected the name (C08 territory): " + stage + ": " + oneLine(err.Error())}
@@ -354,7 +447,6 @@ func containsIdent(text, word string) bool {
 	}
 }
 
-
 var glsl460Only = func() map[string]bool {
 	m := map[string]bool{"sampler": true, "samplerShadow": true}
 	for _, pre := range []string{"", "i", "u"} {
@@ -369,10 +461,11 @@ var glsl460Only = func() map[string]bool {
 
 // c16Uncertain: reserved-identifier reports this check does not count as violations, because whether the word is
 // unusable depends on the compiler, language version or a using-directive the emitted text does not contain:
-//   HLSL: intrinsic function names (user declarations hide them), the sized *_t type names (DXC / HLSL 2018 only),
-//         FXC's case-insensitive effect-framework tokens;
-//   MSL:  names of metal:: types (the emitted text qualifies them and has no `using namespace metal`);
-//   GLSL: keywords introduced by GLSL 4.60 (the emitted #version is lower), built-in function names.
+//
+//	HLSL: intrinsic function names (user declarations hide them), the sized *_t type names (DXC / HLSL 2018 only),
+//	      FXC's case-insensitive effect-framework tokens;
+//	MSL:  names of metal:: types (the emitted text qualifies them and has no `using namespace metal`);
+//	GLSL: keywords introduced by GLSL 4.60 (the emitted #version is lower), built-in function names.
 func c16Uncertain(be, msg, word string) bool {
 	switch be {
 	case "hlsl":
